@@ -65,6 +65,9 @@ func (c *c04) Cases(tier string, seed int64) []core.Case {
 	cs = append(cs, core.MkCase("max-99-volumes", p1Params{r.Int63(), "max99"}))
 	cs = append(cs, core.MkCase("files-plus-volumes-256", p1Params{r.Int63(), "sum256"}))
 	cs = append(cs, core.MkCase("singular-constructed", p1Params{r.Int63(), "singular"}))
+	for i := 0; i < map[string]int{"quick": 3, "thorough": 40}[tier]; i++ {
+		cs = append(cs, core.MkCase(fmt.Sprintf("big-files-%d", i), p1Params{r.Int63(), "big"}))
+	}
 	return cs
 }
 
@@ -363,6 +366,8 @@ func (c *c04) Run(cs core.Case) core.Result {
 		nf, nv = 250, 6
 	case p.Kind == "singular":
 		nf, nv = 20, 6
+	case p.Kind == "big":
+		nf, nv = 3+rng.Intn(3), 2
 	default:
 		nf = 1 + rng.Intn(8)
 		if rng.Intn(5) == 0 {
@@ -374,6 +379,18 @@ func (c *c04) Run(cs core.Case) core.Result {
 		}
 	}
 	files := genP1Files(rng, nf)
+	if p.Kind == "big" {
+		// hundreds of KiB, all lengths different and unaligned: anything done in
+		// blocks or stripes sees full blocks, partial ones and files that end in
+		// different blocks
+		for i := range files {
+			n := 100000 + rng.Intn(700000)
+			if i == 0 {
+				n = 256*1024*(1+rng.Intn(3)) + []int{0, 1, -1, 4096, 12345}[rng.Intn(5)]
+			}
+			files[i].Data = scen.GenData(rng, "random", n, 16)
+		}
+	}
 	if p.Kind == "sum256" || p.Kind == "singular" {
 		for i := range files {
 			if len(files[i].Data) > 300 {
